@@ -1,4 +1,5 @@
 import PyPhysim.Proofs.C07Complete
+import PyPhysim.Proofs.C07Power
 import PyPhysim.Generated.C07SaveRule
 
 /-!
@@ -39,7 +40,8 @@ variable {R T : Type} [DecidableEq T]
 omit [DecidableEq T] in
 /-- **Tie to the source (regenerated on every run).**  The file-system steps that
     `_save_to_pickle` / `_save_to_json` perform in the current source are those of
-    the `atomic` discipline (temp file, write, `os.replace`), and the save rule of
+    the `atomic` discipline (open temp file, write, flush, fsync, close, `os.replace` — in
+    this order; dropping `flush` or `fsync` or moving them changes the generated list), and the save rule of
     `save_partial_results_maybe` is the model's `Cfg.due` with the constants of the
     source.  If the source goes back to writing in place this stops compiling. -/
 theorem generated_save_matches_model {C : Type} (c : C) (cfg : Cfg R T)
@@ -344,6 +346,73 @@ theorem refused_restart_changes_nothing (cfg cfgOk : Cfg R T) (d : Disk R T) (c 
     rw [simVarsC_cons_error cfg 0 _ d c outs e hres, runVarC_error cfg 0 d c outs e h]
   refine ⟨h1, ?_, ?_⟩ <;> rw [h1] <;> rfl
 
+/-! ## One level below `os.replace`: power loss -/
+
+omit [DecidableEq T] in
+/-- **The write protocol is power-loss safe.**  From a slot whose results file is
+    missing or complete-and-durable, after ANY prefix of
+    `[open tmp, write, flush, fsync, close, rename]` followed by a power loss (every file
+    cut to what its last `fsync` made durable; performed renames persist) the file under
+    the results name is the OLD complete file or the NEW complete file — and durable
+    again.  Where each step is used: `flush` before `fsync` puts the data where `fsync`
+    can see it (`no_flush_not_power_safe`), `fsync` before the rename makes it durable
+    (`no_fsync_not_power_safe`), the rename comes after both
+    (`fsync_after_rename_not_power_safe`). -/
+theorem atomic_protocol_power_safe {C : Type} (s : PSlot C) (hs : s.Sound) (c : C) (q : List (SlotOp C))
+    (hq : q <+: saveOps .atomic c) :
+    ((s.applyAll q).powerLoss.view.main = s.view.main ∨ (s.applyAll q).powerLoss.view.main = .valid c) ∧
+    (s.applyAll q).powerLoss.Sound := by
+  obtain ⟨_, h2, h3⟩ := PSlot.block_prefix s hs c q hq
+  refine ⟨?_, h3⟩
+  rw [h2]
+  have hat : ∀ op ∈ q, op.isAtomic = true := fun op hop => saveOps_atomic_isAtomic c op (hq.subset hop)
+  rcases Slot.atomic_main s.view q hat with h | ⟨x, hx, h⟩
+  · left; exact h
+  · right
+    obtain ⟨r, hr⟩ := hq
+    have : x ∈ contents (saveOps .atomic c) := by rw [← hr, contents_append]; exact List.mem_append_left _ hx
+    rw [contents_saveOps] at this
+    rw [h, List.mem_singleton.mp this]
+
+/-- **A power loss at any point of a run leaves what a process kill at that point
+    leaves** (atomic protocol; starting disk sound, e.g. empty or left by earlier power
+    losses): for EVERY prefix `pre` of the trace the results files after the power loss
+    are those of the process-level crash disk `d.applyAll pre` — so `crash_never_worse`,
+    `saved_is_prefix_merge_run`, `resume_exact`, `resume_exact_count`,
+    `resume_completes` hold verbatim for power losses — and the disk is sound again
+    (any number of power losses). -/
+theorem power_loss_is_a_crash_point (cfg : Cfg R T) (hm : cfg.mode = .atomic) (pd : PDisk R T)
+    (hs : pd.Sound) (c : Clock) (outs : List (Outcome R)) (pre : List (Ev R T))
+    (hp : pre <+: (simC cfg pd.view c outs).trace) :
+    (∀ i, (((pd.applyAll pre).powerLoss.view).part i).main = ((pd.view.applyAll pre).part i).main) ∧
+    ((pd.applyAll pre).powerLoss.view).fin.main = (pd.view.applyAll pre).fin.main ∧
+    (pd.applyAll pre).powerLoss.Sound ∧
+    ∀ (cfg2 : Cfg R T) (c2 : Clock) (outs2 : List (Outcome R)),
+      simC cfg2 (pd.applyAll pre).powerLoss.view c2 outs2 = simC cfg2 (pd.view.applyAll pre) c2 outs2 := by
+  obtain ⟨h1, h2, _, h4⟩ := simC_powerLoss cfg hm pd hs c outs pre hp
+  exact ⟨h1, h2, h4, fun cfg2 c2 outs2 => simC_mainEq cfg2 _ _ c2 outs2 h1⟩
+
+/-- **Negative witness: `flush` dropped** (`fsync` then only sees what the OS already
+    has — nothing): after the complete sequence the new file is under the results name
+    but not durable; a power loss leaves it with zero length — neither the old nor the new
+    file. -/
+theorem no_flush_not_power_safe :
+    ((⟨some ⟨none, some 1, some 1⟩, none⟩ : PSlot Nat).applyAll
+      [.tmpOpen, .tmpWrite 2, .tmpFsync, .tmpClose, .rename 2]).powerLoss.view.main = .torn := rfl
+
+/-- **Negative witness: `fsync` dropped.** -/
+theorem no_fsync_not_power_safe :
+    ((⟨some ⟨none, some 1, some 1⟩, none⟩ : PSlot Nat).applyAll
+      [.tmpOpen, .tmpWrite 2, .tmpFlush, .tmpClose, .rename 2]).powerLoss.view.main = .torn := rfl
+
+/-- **Negative witness: `fsync` moved after the rename.**  The complete sequence ends
+    well, but a power loss between the rename and the `fsync` leaves a zero-length file. -/
+theorem fsync_after_rename_not_power_safe :
+    ((⟨some ⟨none, some 1, some 1⟩, none⟩ : PSlot Nat).applyAll
+      [.tmpOpen, .tmpWrite 2, .tmpFlush, .tmpClose, .rename 2, .syncMain]).powerLoss.view.main = .valid 2 ∧
+    ((⟨some ⟨none, some 1, some 1⟩, none⟩ : PSlot Nat).applyAll
+      [.tmpOpen, .tmpWrite 2, .tmpFlush, .tmpClose, .rename 2]).powerLoss.view.main = .torn := ⟨rfl, rfl⟩
+
 /-! ## The in-place discipline (the code before the `fix:` commit) -/
 
 /-- the statement that fails for in-place writing: "after every crash point of a run
@@ -392,22 +461,22 @@ example :
 def exampleCfg : Cfg Nat Nat := ⟨(· + ·), 3, 2, fun _ _ _ _ => true, fun i => i, 500, 300, .atomic⟩
 
 /-- two variations, `rep_max = 3`, a skip, a time-triggered periodic save (a call of
-    301 s): killed in the middle of variation 0 right after that save (6 events), the
+    301 s): killed in the middle of variation 0 right after that save (9 events), the
     restart continues variation 0 from the saved 2 repetitions (tokens 1+2), runs only
     what is missing (one call), then variation 1; every token is counted once -/
 example :
-    (callLog ((simC exampleCfg Disk.empty ⟨0, [0, 0, 301]⟩ [.ok 1, .skip, .ok 2, .ok 4, .ok 8]).trace.take 6),
+    (callLog ((simC exampleCfg Disk.empty ⟨0, [0, 0, 301]⟩ [.ok 1, .skip, .ok 2, .ok 4, .ok 8]).trace.take 9),
      (simC exampleCfg (Disk.empty.applyAll
-        ((simC exampleCfg Disk.empty ⟨0, [0, 0, 301]⟩ [.ok 1, .skip, .ok 2, .ok 4, .ok 8]).trace.take 6))
+        ((simC exampleCfg Disk.empty ⟨0, [0, 0, 301]⟩ [.ok 1, .skip, .ok 2, .ok 4, .ok 8]).trace.take 9))
         ⟨0, []⟩ [.ok 16, .ok 32, .ok 64, .ok 128, .ok 256]).status,
      callLog (simC exampleCfg (Disk.empty.applyAll
-        ((simC exampleCfg Disk.empty ⟨0, [0, 0, 301]⟩ [.ok 1, .skip, .ok 2, .ok 4, .ok 8]).trace.take 6))
+        ((simC exampleCfg Disk.empty ⟨0, [0, 0, 301]⟩ [.ok 1, .skip, .ok 2, .ok 4, .ok 8]).trace.take 9))
         ⟨0, []⟩ [.ok 16, .ok 32, .ok 64, .ok 128, .ok 256]).trace,
      (simC exampleCfg (Disk.empty.applyAll
-        ((simC exampleCfg Disk.empty ⟨0, [0, 0, 301]⟩ [.ok 1, .skip, .ok 2, .ok 4, .ok 8]).trace.take 6))
+        ((simC exampleCfg Disk.empty ⟨0, [0, 0, 301]⟩ [.ok 1, .skip, .ok 2, .ok 4, .ok 8]).trace.take 9))
         ⟨0, []⟩ [.ok 16, .ok 32, .ok 64, .ok 128, .ok 256]).reps,
      (simC exampleCfg (Disk.empty.applyAll
-        ((simC exampleCfg Disk.empty ⟨0, [0, 0, 301]⟩ [.ok 1, .skip, .ok 2, .ok 4, .ok 8]).trace.take 6))
+        ((simC exampleCfg Disk.empty ⟨0, [0, 0, 301]⟩ [.ok 1, .skip, .ok 2, .ok 4, .ok 8]).trace.take 9))
         ⟨0, []⟩ [.ok 16, .ok 32, .ok 64, .ok 128, .ok 256]).results.map (·.acc))
       = ([0, 0, 0], none, [0, 1, 1, 1], [3, 3], [1 + 2 + 16, 32 + 64 + 128]) := by
   decide
